@@ -53,4 +53,39 @@ func C17_dialer_results() {
 		v, ok := hs.Extensions[1].Parameters.Get("q")
 		vAssert(vAnd(vEqBytes(hs.Extensions[1].Name, []byte("ext-b")), vAnd(ok, vEqBytes(v, []byte{par[1], par[0]}))), "alias.dial_second_extension_survives_pool_reuse")
 	}
+	// a further handshake through the same Dialer, answered differently (other parameters, the
+	// extensions the other way round or only the second one): the first result stays as it was
+	next := vChoose("next", 3)
+	size0 := hs.Extensions[0].Parameters.Size()
+	srv2 := &vServer{}
+	srv2.resp = func(key []byte) []byte {
+		b := []byte("HTTP/1.1 101 Switching Protocols\r\nUpgrade: websocket\r\nConnection: Upgrade\r\nSec-WebSocket-Accept: " + string(vAccept(key)) + "\r\nSec-WebSocket-Protocol: chat\r\nSec-WebSocket-Extensions: ")
+		switch next {
+		case 0:
+			b = append(b, "ext-a; p=zz; r=1, ext-b; q=yy"...)
+		case 1:
+			b = append(b, "ext-b; q=yy"...)
+		default:
+			b = append(b, "ext-a; other=1"...)
+		}
+		return append(b, "\r\n\r\n"...)
+	}
+	_, hs2, err := d.Upgrade(srv2, &url.URL{Scheme: "ws", Host: "h", Path: "/"})
+	vPoisonPools()
+	vAssert(vAnd(err == nil, hs2.Protocol == "chat"), "alias.second_dial_ok")
+	vAssert(hs.Protocol == "other", "alias.dial_protocol_unchanged_by_next_handshake")
+	vAssert(len(hs.Extensions) == want, "alias.dial_extension_count_unchanged_by_next_handshake")
+	if len(hs.Extensions) != want {
+		return
+	}
+	v, ok = hs.Extensions[0].Parameters.Get("p")
+	vAssert(vAnd(vEqBytes(hs.Extensions[0].Name, []byte("ext-a")), vAnd(ok, vEqBytes(v, par))), "alias.dial_extensions_unchanged_by_next_handshake")
+	vAssert(hs.Extensions[0].Parameters.Size() == size0, "alias.dial_extension_parameters_unchanged_by_next_handshake")
+	if want == 2 {
+		v, ok := hs.Extensions[1].Parameters.Get("q")
+		vAssert(vAnd(vEqBytes(hs.Extensions[1].Name, []byte("ext-b")), vAnd(ok, vEqBytes(v, []byte{par[1], par[0]}))), "alias.dial_second_extension_unchanged_by_next_handshake")
+	}
+	// and the caller's configuration is still what the caller wrote
+	vAssert(vAnd(len(d.Extensions) == 2, vAnd(vEqBytes(d.Extensions[0].Name, []byte("ext-a")), vEqBytes(d.Extensions[1].Name, []byte("ext-b")))), "alias.dialer_offer_names_unchanged")
+	vAssert(vAnd(d.Extensions[0].Parameters.Size() == 0, d.Extensions[1].Parameters.Size() == 0), "alias.dialer_offer_parameters_unchanged")
 }
